@@ -84,12 +84,19 @@ def describe(ev):
     return ":".join(str(x) for x in ev)
 
 
-def check_exit(col, sess, how, cls, inp):
+def check_exit(col, sess, how, cls, inp, again=None):
     rc = sess.p.wait_exit(20)
     diffs = procs.termios_diff(sess.p.termios_before, sess.p.termios_now())
     loc = sess.panic_location()
     if rc is None:
         col.add("C17", f"C17|no_exit_after_quit|{cls}", f"radar still running 20 s after {how}", inp)
+        if again is not None:
+            # (the listed finding says the key is only held back until the next input arrives: if
+            # the client does not leave then either, that is something else)
+            sess.p.write(again)
+            rc = sess.p.wait_exit(10)
+            if rc != 0:
+                col.add("C17", f"C17|no_exit_after_second_quit|{cls}", f"radar did not end with status 0 (status {rc}) after a second quit key either", inp)
         return
     if rc != 0:
         col.add("C17", f"C17|exit_status_after_quit|{cls}", f"exit status {rc} (panic at {loc}) after {how}", inp)
@@ -176,7 +183,7 @@ def run_session(col, binpath, rng, tag, scratch, n_events):
     events = gen_events(rng, n_events, rows, cols)
     # the quit request alone, or with further input right behind it in the same write (a key, Enter,
     # a mouse report): requested is requested
-    quit_how = rng.choice(["q", "CtrlC", "q", "CtrlC", "q+Enter", "CtrlC+x", "q+F3", "q+mouse", "CtrlC+q"])
+    quit_how = rng.choice(["q", "CtrlC", "q", "CtrlC", "q+Enter", "CtrlC+x", "q+F3", "q+mouse", "CtrlC+q", "resize+q", "resize+CtrlC"])
     cls = f"air={'0' if n_air == 0 else 'some'}|ft={ft}"
     inp = {"options": opts, "size": [rows, cols], "aircraft": n_air, "traffic": traffic, "events": [describe(e) for e in events], "quit": quit_how, "tag": tag}
     sess = session.RadarSession(binpath, plan, lat=rx_lat, lon=rx_lon, opts=opts, rows=rows, cols=cols, scratch=scratch)
@@ -240,13 +247,22 @@ def run_session(col, binpath, rng, tag, scratch, n_events):
         # terminal library keeps collecting until it sees 'c' or 'u'
         sess.p.write(b"c")
         sess.p.pump(0.15)
-        if "+" in quit_how:
+        if quit_how.startswith("resize+"):
+            # a burst of window-size changes and the quit key a few milliseconds behind it
+            for sz in ((30, 100), (1, 1), (rows, cols)):
+                sess.p.resize(*sz)
+                time.sleep(0.002)
+            sess.send_raw(procs.KEYS[quit_how.split("+")[1]], f"quit:{quit_how}")
+        elif "+" in quit_how:
             first, then = quit_how.split("+")
             tail = {"Enter": procs.KEYS["Enter"], "x": b"x", "F3": procs.KEYS["F3"], "mouse": procs.mouse("down", 5, 5) + procs.mouse("up", 5, 5), "q": b"q"}[then]
             sess.send_raw(procs.KEYS[first] + tail, f"quit:{quit_how}")
         else:
             sess.key(quit_how)
-        check_exit(col, sess, f"'{quit_how}'", cls, inp)
+        if quit_how.startswith("resize+"):
+            check_exit(col, sess, f"'{quit_how}' (the quit key 2 ms behind a burst of window-size changes)", "quit_right_behind_resize", inp, again=procs.KEYS[quit_how.split("+")[1]])
+        else:
+            check_exit(col, sess, f"'{quit_how}'", cls, inp)
         col.count("quits_checked")
     finally:
         sess.close()
@@ -331,12 +347,7 @@ def typeahead_quit(col, binpath, rng, tag, scratch):
         if not sess.p.alive():
             col.add("C17", "C17|terminated_before_quit|while_waiting", f"radar exited with status {sess.p.p.returncode} (panic {sess.panic_location()}) while waiting for a connection", inp)
             return
-        ls = socket.socket(socket.AF_INET, socket.SOCK_STREAM)
-        ls.setsockopt(socket.SOL_SOCKET, socket.SO_REUSEADDR, 1)
-        try:
-            ls.bind(("127.0.0.1", sess.srv.port))
-        except OSError:
-            raise Inconclusive("the port of the late server is taken")
+        ls = sess.srv.sock  # bound since the start of the session, listening from now on
         ls.listen(4)
         ls.settimeout(0.2)
         stop = threading.Event()
@@ -363,8 +374,6 @@ def typeahead_quit(col, binpath, rng, tag, scratch):
                 c.close()
             except OSError:
                 pass
-        if ls is not None:
-            ls.close()
         sess.close()
 
 
@@ -410,6 +419,50 @@ def crowd_quit(col, binpath, rng, tag, scratch, n_air):
         sess.close()
 
 
+def quit_while_connect_blocks(col, binpath, rng, tag, scratch):
+    """The server's host is up but nothing accepts (the accept queue is full, further SYNs get no
+    answer): radar's connection attempt is pending when the operator quits - quit has to be honoured
+    within the usual 20 s, not when the operating system gives up on the SYN (minutes)."""
+    import socket
+    ls = socket.socket(socket.AF_INET, socket.SOCK_STREAM)
+    ls.setsockopt(socket.SOL_SOCKET, socket.SO_REUSEADDR, 1)
+    ls.bind(("127.0.0.1", 0))
+    ls.listen(0)
+    port = ls.getsockname()[1]
+    dummies = []
+    for _ in range(8):
+        d = socket.socket(socket.AF_INET, socket.SOCK_STREAM)
+        d.setblocking(False)
+        try:
+            d.connect(("127.0.0.1", port))
+        except (BlockingIOError, OSError):
+            pass
+        dummies.append(d)
+    time.sleep(0.3)
+    i = idx_of(tag)
+    how = ["q", "CtrlC"][i % 2]
+    sess = session.RadarSession(binpath, [], opts=[[], ["--retry-tcp"]][i % 2], rows=24, cols=80, scratch=scratch, listen=False)
+    # point radar at the saturated port instead of the (closed) port of the session's own server
+    sess.p.kill()
+    argv = [x if x != str(sess.srv.port) else str(port) for x in sess.argv]
+    sess.p = procs.PtyProc(argv, rows=24, cols=80, cwd=sess.scratch)
+    inp = {"scenario": "quit while the connection attempt gets no answer (accept queue of the server full)", "keys": [how], "argv": argv, "tag": tag}
+    try:
+        sess.p.pump(rng.choice([1.5, 3.0]))
+        if not sess.p.alive():
+            raise Inconclusive("radar ended by itself while the server did not answer")
+        sess.key(how)
+        col.count("sessions")
+        col.cls("session|connect_pending")
+        check_exit(col, sess, f"'{how}' while the connection attempt was pending", "connect_pending", inp)
+        col.count("quits_checked")
+    finally:
+        for d in dummies:
+            d.close()
+        ls.close()
+        sess.close()
+
+
 def quit_on_reconnect_screen(col, binpath, rng, tag, scratch):
     """--retry-tcp: the feed disappears and stays away; operator events and quit on the waiting screen."""
     how = rng.choice(["q", "CtrlC"])
@@ -426,7 +479,19 @@ def quit_on_reconnect_screen(col, binpath, rng, tag, scratch):
         while time.monotonic() < end and not sess.srv.marked("closed"):
             sess.p.pump(0.1)
         if not flapping:
-            sess.srv.sock.close()  # nothing listens any more: every reconnect attempt is refused
+            # nothing listens any more: every reconnect attempt is refused. The port stays bound (a
+            # socket that does not listen), or another session's server could be given it while this
+            # radar still knocks
+            import socket
+            port = sess.srv.port
+            sess.srv.sock.close()
+            hold = socket.socket(socket.AF_INET, socket.SOCK_STREAM)
+            hold.setsockopt(socket.SOL_SOCKET, socket.SO_REUSEADDR, 1)
+            try:
+                hold.bind(("127.0.0.1", port))
+                sess.srv.sock = hold
+            except OSError:
+                hold.close()
         sess.p.pump(rng.choice([1.5, 4.5]))  # hundreds of refused attempts
         if not sess.p.alive():
             col.add("C17", f"C17|terminated_before_quit|reconnect_wait|{sess.panic_location()}", f"with --retry-tcp radar exited (status {sess.p.p.returncode}) when the server went away", inp)
@@ -606,6 +671,8 @@ def main(a, lcol, col, run_all, scratch, START):
         jobs.append((f"reconnected#{i}", lambda rng, i=i: quit_after_reconnect(lcol, a.bin, rng, f"reconnected#{i}", scratch)))
     for i, n_air in enumerate([2500, 1200, 600] if thorough else [500]):
         jobs.insert(0, (f"crowd#{i}", lambda rng, i=i, n_air=n_air: crowd_quit(lcol, a.bin, rng, f"crowd#{i}", scratch, n_air)))
+    for i in range(8 if thorough else 2):
+        jobs.insert(0, (f"connectpending#{i}", lambda rng, i=i: quit_while_connect_blocks(lcol, a.bin, rng, f"connectpending#{i}", scratch)))
     for i in range(30 if thorough else 6):
         jobs.append((f"typeahead#{i}", lambda rng, i=i: typeahead_quit(lcol, a.bin, rng, f"typeahead#{i}", scratch)))
     for i in range(32 if thorough else 8):
